@@ -97,7 +97,10 @@ let steps_of f field =
 
 let predict (c : string) (obs : string) : string * string * bool =
   match split_blank c with
-  | ["http"; gun; fault; status; en; depth; nto; tag; path] -> predict_http gun fault status en depth nto tag path obs
+  | ["http"; gun; fault; status; en; depth; nto; tag; path]
+  | ["http"; gun; fault; status; en; depth; nto; tag; path; _] ->
+      (* the optional last field switches tracing / dumps / answer log on: no effect on samples *)
+      predict_http gun fault status en depth nto tag path obs
   | ["hscen"; name; steps] ->
       let st = steps_of hstep_of steps and nm = bytes_of_hex name in
       let want = s_samples (hscen_spec nm st) in
